@@ -1,125 +1,373 @@
 /-
-  C15 — the fitness cache can be shared by threads: theorems about the lock protocol
-  (statements in words: design/C15.md).
+  C15 — the fitness cache can be shared by threads: theorems (statements in words: design/C15.md).
 
-  By-value `find` (the code after `fix: cache::find returns the fitness by value`), for every
-  interleaving of every number of threads and every value length `L`:
-    step_inv               every atomic step preserves the protocol invariant `PInv`
-    reach_pinv             hence `PInv` holds in every reachable state
-    mutex_inv              a thread inside insert/clear excludes every other lock holder
-    lookup_returns_stored  a finished lookup of `k` returned nothing or ONE COMPLETE value that some
-                           insert stored under `k`  (no torn, no foreign value)
-  `find` as it was written (reference handed out, lock released, caller copies):
-    foreign_value_witness  a schedule on which the lookup of key 1 returns the value stored under key 2
-    torn_value_witness     a schedule on which it returns a mixture of two values
-    lookup_returns_stored_fails_for_reference   so the statement above is false for that variant
+  The transition system `Step d c` of Model.lean: any number of threads running find / insert /
+  clear() / clear(key) / save / load / evaluator_proxy::operator() one atomic step at a time on a
+  table of any number of slots whose values are `c.L` machine words; `d` says which lock each
+  operation takes.  For EVERY interleaving (induction over `Reach`):
+
+    mutex_inv                 (any d)   a thread that holds the lock exclusively is the only holder
+    step_inv / reach_pinv     (d.ok)    the protocol invariant `PInv`
+    lookup_returns_stored     (d.ok)    a finished lookup of `k` returned nothing or ONE COMPLETE value
+                                        that some insert / load stored under `k` – no torn, no foreign value
+    proxy_returns_stored      (d.ok)    the same for what evaluator_proxy::operator() returns
+    proxy_is_linearized       (d.ok)    … which is the answer of its own linearized find or the value of its own
+                                        linearized insert
+    save_returns_stored       (d.ok)    the same for every entry a finished `save` has written
+    history_legal             (any d)   the linearized history is a legal history of the sequential cache
+    linearizable              (d.ok)    … it ends in the sequential cache `abs`, the table IS `abs` whenever no
+                                        writing operation is in progress, and every finished find / save returned
+                                        exactly the answer recorded at its linearization point
+    linearized_answer                   an answer recorded in a legal history is the sequential cache's answer
+                                        on the history before it
+    lookup_is_C04_sequential, proxy_is_C04_sequential
+                                        … and that answer is C04's `Cache.find` on C04's `Cache.run` of the stores and
+                                        clears linearized before (Bridge.lean; histories without `load`)
+    cache_discipline_checked            the obligations on the table extracted from cache.cc (Gen.lean)
+    cache_*                             the theorems above for `Gen.disc`, the discipline extracted from cache.cc
+    driver_states_reachable             whatever the driver executes is reachable
+  and for the broken disciplines, schedules (evaluated by the executable model) on which a lookup
+  returns a foreign / torn value:
+    reference_foreign_value_witness, reference_torn_value_witness   find hands out a reference
+    find_unlocked_torn_witness        find takes no lock
+    insert_shared_torn_witness        insert takes the shared lock
+    clear_shared_torn_witness         clear() takes the shared lock and the seal wraps
+    lookup_returns_stored_needs_ok    so `lookup_returns_stored` fails for each of them
 -/
-import Vita.C15.Lemmas
+import Vita.C15.Inv
 import Vita.C15.Exec
+import Vita.C15.Gen
+import Vita.C15.Bridge
 namespace Vita.C15
 
-theorem step_inv {s s' : S} (h : PInv s) (st : StepV s s') : PInv s' := stepV_inv h st
-
-theorem reach_pinv {L : Nat} {s : S} (h : Reach StepV (S.init L) s) : PInv s := reach_inv h
-
-/-- mutual exclusion, derived (the lock itself is specified, not implemented, in the model): in
-    every reachable state a thread in an insert/clear critical section is alone -/
-theorem mutex_inv {L : Nat} {s : S} (h : Reach StepV (S.init L) s) (t u : Tid) (htu : t ≠ u)
-    (ht : (s.th t).isW = true) : (s.th u).holds = false :=
-  (reach_inv h).excl t u htu ht
-
-/-- **lookup_returns_stored** — every interleaving, every thread count, every `L` -/
-theorem lookup_returns_stored {L : Nat} {s : S} (h : Reach StepV (S.init L) s) (t : Tid) (k : Key)
-    (v : List Tok) (hd : s.th t = .fDone k (some v)) :
-    ∃ id, (k, id) ∈ s.stored ∧ v = List.replicate L (k, id) := by
-  have hp := reach_inv h
-  have hL : s.L = L := by
-    clear hd hp
+/-- **mutual exclusion** (any discipline: it is the lock's specification carried along every
+    interleaving): a thread that holds the lock exclusively is the only thread that holds it -/
+theorem mutex_inv {d : Disc} {c : Cfg} {s : S} (h : Reach d c s) (t u : Tid) (htu : t ≠ u)
+    (ht : lockOf d (s.th t) = .excl) : lockOf d (s.th u) = .none := by
+  have : Excl d s.th := by
+    clear ht
     induction h with
-    | refl => rfl
-    | tail s s' _ st ih =>
-      cases st with
-      | common _ c => cases c <;> exact ih
-      | fHit => exact ih
-      | fCopyWord => exact ih
-      | fRelease => exact ih
-  have := hp.thr t
-  rw [hd] at this
-  simpa [TOK, hL] using this
+    | init => exact excl_init d c
+    | step s s' _ st ih => exact step_excl ih st
+  exact this t u htu ht
 
-/-- the tie: whatever sequence of actions the (by-value) driver executes from the initial state of `n`
-    threads, the state it is in is reachable – so `lookup_returns_stored` covers the driver's answers -/
-theorem driver_states_reachable {n L : Nat} (as : List Act) {s' : S}
-    (h : execs false n (S.init L) as = some s') : Reach StepV (S.init L) s' :=
-  (execs_reach Reach.refl (fun _ _ => rfl) as h).1
+theorem step_inv {d : Disc} (hd : d.ok = true) {c : Cfg} {s s' : S} (h : PInv d c s) (st : Step d c s s') :
+    PInv d c s' := by
+  obtain ⟨a, hf, h1⟩ := st
+  exact step1_inv hd h a hf h1
 
-/-! ### the code as it was written: the reference outlives the lock -/
+theorem reach_pinv {d : Disc} (hd : d.ok = true) {c : Cfg} {s : S} (h : Reach d c s) : PInv d c s := by
+  induction h with
+  | init => exact pinv_init d c
+  | step s s' _ st ih => exact step_inv hd ih st
 
-macro "lock_free" : tactic =>
-  `(tactic| (intro u; dsimp only [upd, S.init]; (repeat' split) <;> rfl))
+/-- under an ok discipline a thread inside a writing operation excludes every other lock holder, and
+    a reader excludes every writer -/
+theorem writer_alone {d : Disc} (hd : d.ok = true) {c : Cfg} {s : S} (h : Reach d c s) (t u : Tid) (htu : t ≠ u)
+    (ht : (s.th t).writing = true) : lockOf d (s.th u) = .none :=
+  mutex_inv h t u htu (writing_excl (okF hd) ht)
+
+/-- **lookup_returns_stored** — every interleaving, every thread count, every table, every `L` -/
+theorem lookup_returns_stored {d : Disc} (hd : d.ok = true) {c : Cfg} {s : S} (h : Reach d c s) (t : Tid) (k : Key)
+    (v : List Tok) (hdone : s.th t = .fDone k (some v)) :
+    ∃ id, (k, id) ∈ s.stored ∧ v = List.replicate c.L (k, id) := by
+  have := (reach_pinv hd h).thr t
+  rw [hdone] at this
+  exact this.2 v rfl
+
+/-- what `evaluator_proxy::operator()` returns for the signature `k` is one complete value stored
+    under `k` (found in the cache, or evaluated – outside any lock – and stored by this very call) -/
+theorem proxy_returns_stored {d : Disc} (hd : d.ok = true) {c : Cfg} {s : S} (h : Reach d c s) (t : Tid) (k : Key)
+    (v : List Tok) (hdone : s.th t = .pDone k v) :
+    ∃ id, (k, id) ∈ s.stored ∧ v = List.replicate c.L (k, id) := by
+  have := (reach_pinv hd h).thr t
+  rw [hdone] at this
+  exact this.1
+
+/-- … and it is the answer of the proxy's own linearized lookup, or the value of its own linearized
+    store (made after its lookup had missed): the proxy is a client of the linearizable cache -/
+theorem proxy_is_linearized {d : Disc} (hd : d.ok = true) {c : Cfg} {s : S} (h : Reach d c s) (t : Tid) (k : Key)
+    (v : List Tok) (hdone : s.th t = .pDone k v) :
+    lastOf t s.lin = some (.find t k (some v)) ∨ ∃ id, lastOf t s.lin = some (.insert t k id) ∧ v = val c k id := by
+  have := (reach_pinv hd h).thr t
+  rw [hdone] at this
+  exact this.2
+
+/-- every entry a finished `save` wrote is a key with one complete value stored under it -/
+theorem save_returns_stored {d : Disc} (hd : d.ok = true) {c : Cfg} {s : S} (h : Reach d c s) (t : Tid)
+    (out : List (Key × List Tok)) (hdone : s.th t = .sDone out) (k : Key) (v : List Tok) (hm : (k, v) ∈ out) :
+    ∃ id, (k, id) ∈ s.stored ∧ v = List.replicate c.L (k, id) := by
+  have := (reach_pinv hd h).thr t
+  rw [hdone] at this
+  exact this.2 (k, v) hm
+
+/-- while the proxy evaluates it holds no lock (whatever the discipline) -/
+theorem proxy_evaluates_outside_locks (d : Disc) (k : Key) : lockOf d (.pEval k) = .none := rfl
+
+/-! ### linearizability w.r.t. the sequential cache `Mem.find / insert / clear / clearKey / save / load`
+    (the functions of C04's `Cache`, over abstract keys and token values) -/
+
+/-- the linearized history (each operation appears at one step between its call and its return, with
+    the answer of the sequential cache) is a legal sequential history ending in `abs` -/
+theorem history_legal {d : Disc} {c : Cfg} {s : S} (h : Reach d c s) : replay c s.lin = some s.abs := by
+  induction h with
+  | init => rfl
+  | step s s' _ st ih =>
+    obtain ⟨a, _, h1⟩ := st
+    exact step1_hist a ih h1
+
+/-- an answer recorded in a legal history is the answer of the sequential cache run on the history
+    before it -/
+theorem linearized_answer {c : Cfg} (l1 l2 : List Ev) (e : Ev) {m : Mem} (h : replay c (l1 ++ e :: l2) = some m) :
+    ∃ m0, replay c l2 = some m0 ∧ m0.legal c e = true := by
+  induction l1 generalizing m with
+  | nil =>
+    simp only [List.nil_append, replay] at h
+    split at h
+    · rename_i m0 h0
+      split at h
+      · rename_i hl; exact ⟨m0, h0, hl⟩
+      · cases h
+    · cases h
+  | cons e1 l1 ih =>
+    simp only [List.cons_append, replay] at h
+    split at h
+    · rename_i m1 h1; exact ih h1
+    · cases h
+
+/-- **linearizable** -/
+theorem linearizable {d : Disc} (hd : d.ok = true) {c : Cfg} {s : S} (h : Reach d c s) :
+    replay c s.lin = some s.abs ∧
+    ((∀ u, (s.th u).writing = false) → s.mem = s.abs) ∧
+    (∀ t k r, s.th t = .fDone k r → lastOf t s.lin = some (.find t k r)) ∧
+    (∀ t out, s.th t = .sDone out → lastOf t s.lin = some (.save t out)) := by
+  have hp := reach_pinv hd h
+  refine ⟨history_legal h, hp.quiet, ?_, ?_⟩
+  · intro t k r ht
+    have := hp.thr t; rw [ht] at this; exact this.1
+  · intro t out ht
+    have := hp.thr t; rw [ht] at this; exact this.1
+
+theorem lastOf_split (t : Tid) (e : Ev) : ∀ l : List Ev, lastOf t l = some e → ∃ l1 l2, l = l1 ++ e :: l2 := by
+  intro l
+  induction l with
+  | nil => intro h; simp [lastOf] at h
+  | cons x l ih =>
+    intro h
+    simp only [lastOf] at h
+    split at h
+    · simp only [Option.some.injEq] at h; subst h; exact ⟨[], l, rfl⟩
+    · obtain ⟨l1, l2, hl⟩ := ih h; exact ⟨x :: l1, l2, by rw [hl]; rfl⟩
+
+/-- a finished lookup returned what the sequential cache answers on the operations linearized before it -/
+theorem lookup_is_sequential {d : Disc} (hd : d.ok = true) {c : Cfg} {s : S} (h : Reach d c s) (t : Tid) (k : Key)
+    (r : Option (List Tok)) (hdone : s.th t = .fDone k r) :
+    ∃ l1 l2 m0, s.lin = l1 ++ .find t k r :: l2 ∧ replay c l2 = some m0 ∧ r = m0.find c k := by
+  obtain ⟨hl, _, hf, _⟩ := linearizable hd h
+  have hlast := hf t k r hdone
+  obtain ⟨l1, l2, hs⟩ := lastOf_split t _ s.lin hlast
+  rw [hs] at hl
+  obtain ⟨m0, h0, hleg⟩ := linearized_answer l1 l2 _ hl
+  refine ⟨l1, l2, m0, hs, h0, ?_⟩
+  simpa [Mem.legal] using hleg
+
+/-! ### … and w.r.t. C04's specification object `Vita.C04.Cache` (Bridge.lean: `Mem.*` refines it under any
+    encoding of the keys in use that is injective and avoids the empty key; `load` has no counterpart in
+    C04's history language, so the statements are about histories without it) -/
+
+/-- **a finished lookup returned what C04's `Cache.find` answers after C04's `Cache.run` of the stores and
+    clears linearized before it** -/
+theorem lookup_is_C04_sequential {d : Disc} (hd : d.ok = true) {c : Cfg} (hM : c.M = 4294967295) {s : S}
+    (h : Reach d c s) (e : Enc) (idx : Vita.C04.Key → Nat) (dom : List Nat)
+    (hidx : ∀ k, e.ok k → idx (e.key k) = c.idx k) (hplain : ∀ x, x ∈ s.lin → x.plain e)
+    (t : Tid) (k : Key) (r : Option (List Tok)) (hdone : s.th t = .fDone k r) :
+    ∃ l1 l2, s.lin = l1 ++ .find t k r :: l2 ∧
+      ((Vita.C04.Cache.init idx dom).run (opsOf e c l2)).find (e.key k) = r.map e.fit := by
+  obtain ⟨hl, _, hf, _⟩ := linearizable hd h
+  obtain ⟨l1, l2, hs⟩ := lastOf_split t _ s.lin (hf t k r hdone)
+  rw [hs] at hl hplain
+  exact ⟨l1, l2, hs, find_is_C04 e c hM idx dom hidx l1 l2 t k r hplain hl⟩
+
+/-- what `evaluator_proxy::operator()` returned is C04's `Cache.find` answer for its own lookup (a hit),
+    or the value it stored itself after its lookup had missed -/
+theorem proxy_is_C04_sequential {d : Disc} (hd : d.ok = true) {c : Cfg} (hM : c.M = 4294967295) {s : S}
+    (h : Reach d c s) (e : Enc) (idx : Vita.C04.Key → Nat) (dom : List Nat)
+    (hidx : ∀ k, e.ok k → idx (e.key k) = c.idx k) (hplain : ∀ x, x ∈ s.lin → x.plain e)
+    (t : Tid) (k : Key) (v : List Tok) (hdone : s.th t = .pDone k v) :
+    (∃ l1 l2, s.lin = l1 ++ .find t k (some v) :: l2 ∧
+      ((Vita.C04.Cache.init idx dom).run (opsOf e c l2)).find (e.key k) = some (e.fit v)) ∨
+    (∃ id, lastOf t s.lin = some (.insert t k id) ∧ v = val c k id) := by
+  rcases proxy_is_linearized hd h t k v hdone with hh | hh
+  · left
+    have hl := history_legal h
+    obtain ⟨l1, l2, hs⟩ := lastOf_split t _ s.lin hh
+    rw [hs] at hl hplain
+    exact ⟨l1, l2, hs, find_is_C04 e c hM idx dom hidx l1 l2 t k (some v) hplain hl⟩
+  · right; exact hh
+
+/-! ### the discipline extracted from cache.cc (lean/Vita/C15/Gen.lean, regenerated on every run) -/
+
+/-- the obligations on the extracted table (Gen.lean, `by decide`): every write under the exclusive lock,
+    every read under at least the shared lock, nothing escapes; every function that touches the table is
+    an operation of the model; hence the discipline is `ok` -/
+theorem cache_discipline_checked :
+    Gen.fns.all (FnInfo.disciplined Gen.mutexShared) = true ∧ Gen.fns.all FnInfo.modelled = true ∧
+    Gen.disc.ok = true := ⟨Gen.all_disciplined, Gen.all_modelled, Gen.disc_ok⟩
+
+theorem cache_mutex_inv {c : Cfg} {s : S} (h : Reach Gen.disc c s) (t u : Tid) (htu : t ≠ u)
+    (ht : lockOf Gen.disc (s.th t) = .excl) : lockOf Gen.disc (s.th u) = .none := mutex_inv h t u htu ht
+
+theorem cache_lookup_returns_stored {c : Cfg} {s : S} (h : Reach Gen.disc c s) (t : Tid) (k : Key) (v : List Tok)
+    (hdone : s.th t = .fDone k (some v)) : ∃ id, (k, id) ∈ s.stored ∧ v = List.replicate c.L (k, id) :=
+  lookup_returns_stored Gen.disc_ok h t k v hdone
+
+theorem cache_proxy_returns_stored {c : Cfg} {s : S} (h : Reach Gen.disc c s) (t : Tid) (k : Key) (v : List Tok)
+    (hdone : s.th t = .pDone k v) : ∃ id, (k, id) ∈ s.stored ∧ v = List.replicate c.L (k, id) :=
+  proxy_returns_stored Gen.disc_ok h t k v hdone
+
+theorem cache_linearizable {c : Cfg} {s : S} (h : Reach Gen.disc c s) :
+    replay c s.lin = some s.abs ∧ ((∀ u, (s.th u).writing = false) → s.mem = s.abs) ∧
+    (∀ t k r, s.th t = .fDone k r → lastOf t s.lin = some (.find t k r)) ∧
+    (∀ t out, s.th t = .sDone out → lastOf t s.lin = some (.save t out)) :=
+  linearizable Gen.disc_ok h
+
+/-- the tie: whatever sequence of actions the driver executes from the initial state of `n` threads,
+    the state it is in is reachable – the theorems above cover the model answers that the real
+    lookups are compared with -/
+theorem driver_states_reachable {d : Disc} {c : Cfg} {n : Nat} (as : List Act) {s' : S}
+    (h : execs d c n (S.init c) as = some s') : Reach d c s' := reach_of_execs h
+
+/-! ### the broken disciplines: schedules with a foreign / torn lookup -/
+
+/-- one slot (every key is sent to slot 0), values of `L` words, seals up to `M` -/
+def oneSlot (L M : Nat) : Cfg := ⟨L, M, fun _ => 0, [0]⟩
+
+/-- a whole insert of thread `t` -/
+def insertActs (t : Tid) (k id L : Nat) : List Act :=
+  [.wAcquire t k id, .wKey t] ++ List.replicate L (.wWord t) ++ [.wSeal t, .wRelease t]
+
+theorem witness_of {d : Disc} {c : Cfg} {n : Nat} {as : List Act} {t : Tid} {x : T}
+    (h : (execs d c n (S.init c) as).map (fun s => s.th t) = some x) : ∃ s, Reach d c s ∧ s.th t = x := by
+  cases hs : execs d c n (S.init c) as with
+  | none => rw [hs] at h; cases h
+  | some s =>
+    rw [hs] at h
+    simp only [Option.map_some, Option.some.injEq] at h
+    exact ⟨s, reach_of_execs hs, h⟩
+
+def dRef : Disc := { Disc.canonical with findRef := true }
+def dFindNone : Disc := { Disc.canonical with find := .none }
+def dInsertShared : Disc := { Disc.canonical with insert := .shared }
+def dClearShared : Disc := { Disc.canonical with clear := .shared }
 
 /-- thread 1 stores (1,0); thread 0 looks key 1 up and is handed the reference; thread 1 stores
     (2,0) into the same slot; thread 0 copies: it gets the value of key 2 -/
-theorem foreign_value_witness :
-    ∃ s, Reach StepR (S.init 1) s ∧ s.th 0 = .fDone 1 (some [(2, 0)]) := by
-  have h0 : Reach StepR (S.init 1) (S.init 1) := Reach.refl
-  have h1 := Reach.tail _ _ h0 (StepR.common _ _ (Common.wAcquire _ 1 1 0 rfl (by lock_free)))
-  have h2 := Reach.tail _ _ h1 (StepR.common _ _ (Common.wKey _ 1 1 0 rfl))
-  have h3 := Reach.tail _ _ h2 (StepR.common _ _ (Common.wWord _ 1 1 0 0 rfl (by decide)))
-  have h4 := Reach.tail _ _ h3 (StepR.common _ _ (Common.wRelease _ 1 1 0 rfl))
-  have h5 := Reach.tail _ _ h4 (StepR.common _ _ (Common.fAcquire _ 0 1 rfl (by lock_free)))
-  have h6 := Reach.tail _ _ h5 (StepR.fHitRef _ 0 1 rfl rfl)
-  have h7 := Reach.tail _ _ h6 (StepR.common _ _ (Common.wAcquire _ 1 2 0 rfl (by lock_free)))
-  have h8 := Reach.tail _ _ h7 (StepR.common _ _ (Common.wKey _ 1 2 0 rfl))
-  have h9 := Reach.tail _ _ h8 (StepR.common _ _ (Common.wWord _ 1 2 0 0 rfl (by decide)))
-  have h10 := Reach.tail _ _ h9 (StepR.common _ _ (Common.wRelease _ 1 2 0 rfl))
-  have h11 := Reach.tail _ _ h10 (StepR.rCopyWord _ 0 1 [] (2, 0) rfl rfl)
-  have h12 := Reach.tail _ _ h11 (StepR.rDone _ 0 1 [(2, 0)] rfl rfl)
-  exact ⟨_, h12, rfl⟩
+theorem reference_foreign_value_witness :
+    ∃ s, Reach dRef (oneSlot 1 9) s ∧ s.th 0 = .fDone 1 (some [(2, 0)]) :=
+  witness_of (n := 2) (as := insertActs 1 1 0 1 ++ [.fAcquire 0 1, .fCheck 0] ++ insertActs 1 2 0 1 ++
+    [.fCopyWord 0, .fRelease 0]) (by decide)
 
 /-- with two words: the reader copies one word of the old value, the writer overwrites both, the
     reader copies the second word – a value nobody stored -/
-theorem torn_value_witness :
-    ∃ s, Reach StepR (S.init 2) s ∧ s.th 0 = .fDone 1 (some [(1, 0), (1, 1)]) := by
-  have h0 : Reach StepR (S.init 2) (S.init 2) := Reach.refl
-  have h1 := Reach.tail _ _ h0 (StepR.common _ _ (Common.wAcquire _ 1 1 0 rfl (by lock_free)))
-  have h2 := Reach.tail _ _ h1 (StepR.common _ _ (Common.wKey _ 1 1 0 rfl))
-  have h3 := Reach.tail _ _ h2 (StepR.common _ _ (Common.wWord _ 1 1 0 0 rfl (by decide)))
-  have h3' := Reach.tail _ _ h3 (StepR.common _ _ (Common.wWord _ 1 1 0 1 rfl (by decide)))
-  have h4 := Reach.tail _ _ h3' (StepR.common _ _ (Common.wRelease _ 1 1 0 rfl))
-  have h5 := Reach.tail _ _ h4 (StepR.common _ _ (Common.fAcquire _ 0 1 rfl (by lock_free)))
-  have h6 := Reach.tail _ _ h5 (StepR.fHitRef _ 0 1 rfl rfl)
-  have h6' := Reach.tail _ _ h6 (StepR.rCopyWord _ 0 1 [] (1, 0) rfl rfl)
-  have h7 := Reach.tail _ _ h6' (StepR.common _ _ (Common.wAcquire _ 1 1 1 rfl (by lock_free)))
-  have h8 := Reach.tail _ _ h7 (StepR.common _ _ (Common.wKey _ 1 1 1 rfl))
-  have h9 := Reach.tail _ _ h8 (StepR.common _ _ (Common.wWord _ 1 1 1 0 rfl (by decide)))
-  have h9' := Reach.tail _ _ h9 (StepR.common _ _ (Common.wWord _ 1 1 1 1 rfl (by decide)))
-  have h11 := Reach.tail _ _ h9' (StepR.rCopyWord _ 0 1 [(1, 0)] (1, 1) rfl rfl)
-  have h12 := Reach.tail _ _ h11 (StepR.rDone _ 0 1 [(1, 0), (1, 1)] rfl rfl)
-  exact ⟨_, h12, rfl⟩
+theorem reference_torn_value_witness :
+    ∃ s, Reach dRef (oneSlot 2 9) s ∧ s.th 0 = .fDone 1 (some [(1, 0), (1, 1)]) :=
+  witness_of (n := 2) (as := insertActs 1 1 0 2 ++ [.fAcquire 0 1, .fCheck 0, .fCopyWord 0] ++
+    [.wAcquire 1 1 1, .wKey 1, .wWord 1, .wWord 1] ++ [.fCopyWord 0, .fRelease 0]) (by decide)
 
-/-- the property fails for the reference variant -/
-theorem lookup_returns_stored_fails_for_reference :
-    ¬ ∀ (L : Nat) (s : S) (t : Tid) (k : Key) (v : List Tok), Reach StepR (S.init L) s →
-        s.th t = .fDone k (some v) → ∃ id, v = List.replicate L (k, id) := by
-  intro h
-  obtain ⟨s, hr, hs⟩ := foreign_value_witness
-  obtain ⟨id, hid⟩ := h 1 s 0 1 _ hr hs
-  simp at hid
+/-- `find` takes no lock: the insert runs between the two word copies -/
+theorem find_unlocked_torn_witness :
+    ∃ s, Reach dFindNone (oneSlot 2 9) s ∧ s.th 0 = .fDone 1 (some [(1, 0), (1, 1)]) :=
+  witness_of (n := 2) (as := insertActs 1 1 0 2 ++ [.fAcquire 0 1, .fCheck 0, .fCopyWord 0] ++
+    [.wAcquire 1 1 1, .wKey 1, .wWord 1, .wWord 1] ++ [.fCopyWord 0, .fRelease 0]) (by decide)
 
-/-! ### non-vacuity: a reachable state of the by-value system with a finished, successful lookup
-    while another reader is still inside its critical section -/
-example : ∃ s, Reach StepV (S.init 1) s ∧ s.th 0 = .fDone 1 (some [(1, 0)]) ∧ s.th 2 = .fLocked 1 := by
-  have h0 : Reach StepV (S.init 1) (S.init 1) := Reach.refl
-  have h1 := Reach.tail _ _ h0 (StepV.common _ _ (Common.wAcquire _ 1 1 0 rfl (by lock_free)))
-  have h2 := Reach.tail _ _ h1 (StepV.common _ _ (Common.wKey _ 1 1 0 rfl))
-  have h3 := Reach.tail _ _ h2 (StepV.common _ _ (Common.wWord _ 1 1 0 0 rfl (by decide)))
-  have h4 := Reach.tail _ _ h3 (StepV.common _ _ (Common.wRelease _ 1 1 0 rfl))
-  have h5 := Reach.tail _ _ h4 (StepV.common _ _ (Common.fAcquire _ 0 1 rfl (by lock_free)))
-  have h5' := Reach.tail _ _ h5 (StepV.common _ _ (Common.fAcquire _ 2 1 rfl (by lock_free)))
-  have h6 := Reach.tail _ _ h5' (StepV.fHit _ 0 1 rfl rfl)
-  have h7 := Reach.tail _ _ h6 (StepV.fCopyWord _ 0 1 [] (1, 0) rfl rfl)
-  have h8 := Reach.tail _ _ h7 (StepV.fRelease _ 0 1 [(1, 0)] rfl rfl)
-  exact ⟨_, h8, rfl, rfl⟩
+/-- `insert` takes the shared lock: it is admitted while the reader is copying -/
+theorem insert_shared_torn_witness :
+    ∃ s, Reach dInsertShared (oneSlot 2 9) s ∧ s.th 0 = .fDone 1 (some [(1, 0), (1, 1)]) :=
+  witness_of (n := 2) (as := insertActs 1 1 0 2 ++ [.fAcquire 0 1, .fCheck 0, .fCopyWord 0] ++
+    [.wAcquire 1 1 1, .wKey 1, .wWord 1, .wWord 1] ++ [.fCopyWord 0, .fRelease 0]) (by decide)
+
+/-- `clear()` takes the shared lock and the seal wraps (here M = 1): the table is wiped under the
+    reader, which returns one word of the value and one word of the wiped slot -/
+theorem clear_shared_torn_witness :
+    ∃ s, Reach dClearShared (oneSlot 2 1) s ∧ s.th 0 = .fDone 1 (some [(1, 0), (0, 0)]) :=
+  witness_of (n := 2) (as := insertActs 1 1 0 2 ++ [.fAcquire 0 1, .fCheck 0, .fCopyWord 0] ++
+    [.cAcquire 1, .cBump 1] ++ [.fCopyWord 0, .fRelease 0]) (by decide)
+
+/-- the property fails for each of the broken disciplines -/
+theorem lookup_returns_stored_needs_ok :
+    ∀ d, d = dRef ∨ d = dFindNone ∨ d = dInsertShared ∨ d = dClearShared →
+      ¬ ∀ (c : Cfg) (s : S) (t : Tid) (k : Key) (v : List Tok), Reach d c s →
+          s.th t = .fDone k (some v) → ∃ id, v = List.replicate c.L (k, id) := by
+  intro d hd h
+  rcases hd with hd | hd | hd | hd <;> subst hd
+  · obtain ⟨s, hr, hs⟩ := reference_foreign_value_witness
+    obtain ⟨id, hid⟩ := h _ s 0 1 _ hr hs
+    simp [oneSlot] at hid
+  · obtain ⟨s, hr, hs⟩ := find_unlocked_torn_witness
+    obtain ⟨id, hid⟩ := h _ s 0 1 _ hr hs
+    simp [oneSlot, List.replicate] at hid
+    omega
+  · obtain ⟨s, hr, hs⟩ := insert_shared_torn_witness
+    obtain ⟨id, hid⟩ := h _ s 0 1 _ hr hs
+    simp [oneSlot, List.replicate] at hid
+    omega
+  · obtain ⟨s, hr, hs⟩ := clear_shared_torn_witness
+    obtain ⟨id, hid⟩ := h _ s 0 1 _ hr hs
+    simp [oneSlot, List.replicate] at hid
+
+/-! ### non-vacuity -/
+
+/-- the canonical discipline is ok, and so is the one with every lock exclusive (std::mutex) -/
+example : Disc.canonical.ok = true ∧ (⟨.excl, false, .excl, .excl, .excl, .excl, .excl⟩ : Disc).ok = true := by decide
+
+/-- two slots: keys 1, 2 share slot 0, key 3 lives in slot 1 -/
+def twoSlots (L : Nat) : Cfg := ⟨L, 4294967295, fun k => if k = 3 then 1 else 0, [0, 1]⟩
+
+/-- a reachable state of the canonical system with a finished, successful lookup while another reader
+    is still inside its critical section -/
+example : ∃ s, Reach Disc.canonical (twoSlots 2) s ∧ s.th 0 = .fDone 1 (some [(1, 0), (1, 0)]) := witness_of (n := 3)
+  (as := insertActs 1 1 0 2 ++ [.fAcquire 0 1, .fAcquire 2 3, .fCheck 0, .fCopyWord 0, .fCopyWord 0, .fRelease 0])
+  (by decide)
+
+/-- two proxies miss on the same key, both evaluate (no lock held), both store: the second returns its
+    own value; a third finds it -/
+example : ∃ s, Reach Disc.canonical (twoSlots 1) s ∧ s.th 1 = .pDone 1 [(1, 8)] := witness_of (n := 2)
+  (as := [.fAcquire 0 1, .fAcquire 1 1, .fCheck 0, .fCheck 1, .fRelease 0, .fRelease 1, .pMiss 0, .pMiss 1,
+          .wAcquire 0 1 7, .wKey 0, .wWord 0, .wSeal 0, .wRelease 0,
+          .wAcquire 1 1 8, .wKey 1, .wWord 1, .wSeal 1, .wRelease 1]) (by decide)
+
+/-- a save that ran after a load and an insert into another slot wrote both entries -/
+example : ∃ s, Reach Disc.canonical (twoSlots 1) s ∧ s.th 0 = .sDone [(2, [(2, 5)]), (3, [(3, 0)])] := witness_of (n := 2)
+  (as := [.lAcquire 1 1 [(1, 4), (2, 5)] true, .lEntry 1, .lEntry 1, .lSeal 1, .lRelease 1] ++ insertActs 1 3 0 1 ++
+         [.sAcquire 0, .sStart 0, .sSlot 0, .sSlot 0, .sEnd 0]) (by decide)
+
+/-- an encoding of the keys 1 and 2 into C04's keys -/
+def encEx : Enc where
+  key := fun k => if k = 1 then ⟨1, 0⟩ else ⟨2, 0⟩
+  fit := fun v => v.map (fun w => UInt64.ofNat (w.1 * 100000 + w.2))
+  ok := fun k => k = 1 ∨ k = 2
+  key_inj := by
+    intro a b ha hb h
+    rcases ha with ha | ha <;> rcases hb with hb | hb <;> subst ha <;> subst hb <;> first | rfl | (exact absurd h (by decide))
+  key_ne0 := by
+    intro a ha
+    rcases ha with ha | ha <;> subst ha <;> decide
+
+/-- … for which the hypotheses of `lookup_is_C04_sequential` are met by a reachable state with a finished
+    lookup (insert 1, insert 2 into the same slot, clear(key 2) concurrently with the lookup of 1) -/
+example : ∃ s, Reach Disc.canonical (twoSlots 1) s ∧ s.th 0 = .fDone 1 none ∧
+    (∀ x, x ∈ s.lin → x.plain encEx) ∧ (twoSlots 1).M = 4294967295 := by
+  obtain ⟨s, hr, hs⟩ : ∃ s, execs Disc.canonical (twoSlots 1) 2 (S.init (twoSlots 1))
+      (insertActs 1 1 0 1 ++ insertActs 1 2 0 1 ++ [.fAcquire 0 1, .fCheck 0, .fRelease 0]) = some s ∧
+      (s.th 0 = .fDone 1 none ∧ s.lin = [.find 0 1 none, .insert 1 2 0, .insert 1 1 0]) := by
+    refine ⟨_, rfl, by decide, by decide⟩
+  refine ⟨s, reach_of_execs hr, hs.1, ?_, rfl⟩
+  intro x hx
+  rw [hs.2] at hx
+  simp only [List.mem_cons, List.not_mem_nil, or_false] at hx
+  rcases hx with hx | hx | hx <;> subst hx <;> simp [Ev.plain, encEx]
+
+/-- a legal history with a recorded lookup in the middle -/
+example : replay (twoSlots 1) ([.clear 0] ++ .find 1 1 (some [(1, 0)]) :: [.insert 0 1 0]) ≠ none := by decide
 
 end Vita.C15
